@@ -5,6 +5,7 @@ import os
 V = os.path.dirname(os.path.abspath(__file__))
 TECH = 'symbolic execution of rustc MIR to SMT (z3): per-path unsat queries over the real functions, BMC over extracted transition relations, native replay of solver models'
 SIM = "The real scheduler loop execute() (with Features::{get,is_finished,insert_retried_scenario,insert_scenarios}, FinishedRulesAndFeatures::*, Executor::{send_event,send_all_events,scenario_finished}, future::{then_yield,YieldThenReturn,YieldNow,SelectWithBiasedFirst}) is symbolically executed across polls to completion over a menu of small worlds (3-5 scenarios, serial/concurrent, rules, retry budget <= 1, limits 1/2/3/unlimited, per-attempt durations 0..2 polls, lazily delivered features, delayed retries); every outcome assignment is symbolic. Abstraction: Executor::run_scenario is replaced by a future that logs Started, is Pending a harness-chosen number of polls, fails/passes symbolically and performs the tail of run_scenario through the real callees; FuturesUnordered = FIFO ready queue; futures Mutex free when locked; model clock bounded to 2^50 ticks with delays < 2^40."
+ATT = "The real Executor::run_scenario coroutine (with run_before_hook, run_step, run_after_hook, emit_failed_events, emit_after_hook_events, ExecutionFailure::*, send_event*, then_yield) is polled to completion for a menu of attempt shapes (0..2 feature/rule background steps, 0..3 own steps, hooks present/absent, with/without retries). User code is modelled: World::new / before hook / step functions / after hook complete after 0..1 polls and pass, panic while polled, or panic when CALLED (before returning their future); World::new may also return Err. step::Collection::find is an oracle per step (none / ambiguous / one). futures combinators (CatchUnwind, AssertUnwindSafe, AndThen, MapOk, TryFold, stream::iter, Then) are models; a panic is caught only by CatchUnwind::poll. The observed events / callback log are compared with an independent reference of the property statement; counterexamples are replayed through the real runner with scripted user code."
 CLAIMED = {
     'C01': dict(
         text="Bounded symbolic execution of the compiler's MIR of the verdict path; every path of the kernels is decided by z3 for all 64-bit counter values and all event shapes; lifts to any stream because the verdict is an OR over monotone counters. Counterexamples are replayed natively against the real writers before being reported.",
@@ -42,6 +43,15 @@ CLAIMED = {
     'C17': dict(
         text="The real step::Collection::find is executed symbolically over association maps whose iteration order is a symbolic permutation, with the regex engine replaced by an oracle table (match verdict, group participation and spans symbolic; group count and names fixed per definition). Counterexamples are confirmed by a native differential replay of the public find() against Python's re on a grid of definitions, registration orders and texts.",
         note="3 definitions with 0/1/2 capture groups placed on the three keywords in 4 layouts (thorough: all 27); step keyword symbolic; every iteration order of the keyword maps. Outside: the regex engine itself, multi-byte text, more than 3 definitions. Sorting by (regex, location) is modelled as sorting by definition index (texts r0 < r1 < r2)."),
+    'C02': dict(
+        text="One attempt: the sequence of events sent equals the canonical sequence computed from the outcomes (Started, before-hook events, per step Started then Passed/Skipped or deferred Failed, failure event before the after-hook events, Finished), every event carries the same retries, and a panic never leaves the attempt without its Failed/Finished events.",
+        note=ATT + " NOT covered: interleaving with other scenarios' events (each attempt is a separate coroutine writing to the shared channel; the scheduler simulation abstracts run_scenario)."),
+    'C09': dict(
+        text="One attempt: before hook first on a freshly created World; every executed step sees the same World with the mutations of the previous ones (model counter); the after hook runs exactly once with the World iff one exists and with the true finishing reason; a World is created at most once and only when a before hook is set or a step matched.",
+        note=ATT + " NOT covered: no World shared between attempts/scenarios (follows from each attempt creating its own; not decided across the scheduler)."),
+    'C10': dict(
+        text="One attempt: no modelled panic (while polled or when called) or World::new error escapes; the Failed event carries the payload of the code that failed, the after hook still runs, Finished and the finished-notification (is_failed / retried) are emitted; on the simulated scheduler loop the panic hook is silenced while scenarios run and the original hook is back when execute() returns.",
+        note=ATT + " Payloads are identity tags (payload TYPE - String / &str / other - is outside the model); what a real panic hook prints is outside."),
 }
 NA_REASON = {
     'C14': 'reporters: the facts leave through serde_json / junit-report / console styling / io::Write and the oracle is a parse-back of text; nothing of the property is left once those library calls are opaque (DESIGN.md section 3)',
